@@ -634,9 +634,7 @@ def drive(check, tier, seed, budget_s=None, workers=None, log=print):
     for fi, item in enumerate(check.fixed_plans(tier)):
         name, plan = item[0], item[1]
         out = check.execute(plan, forced=(item[2] if len(item) > 2 else None))
-        fixed_agg.add(-1000000 - fi, plan, out)
-        if out.violation is not None:
-            violations.append((('fixed:' + name), plan, out.decisions, out.violation))
+        fixed_agg.add(-1000000 - fi, plan, out)       # (a violation of a fixed plan reaches the report through the merged aggregate)
 
     # 2. determinism canary: a handful of run seeds executed twice in this process must give identical digests
     canary = 'pass'
